@@ -225,6 +225,17 @@ def replay_one(case):
     """-> (case, verdict, [(subkey | None, text)])"""
     res = []
     try:
+        return _replay_one(case, res)
+    except HardTimeout:
+        return case, "outside", [(None, "conversion timed out")]
+    except Exception as e:  # pylint: disable=broad-except
+        # the model defines a value for every emitted behaviour: an exception of the library is a failure
+        res.append((None, f"the library raised {type(e).__name__}: {str(e)[:200]} (the model defines a value here)"))
+        return case, "violation", res
+
+
+def _replay_one(case, res):
+    try:
         if case["k"] == "chain":
             for as_float in (False, True):
                 res += [(None, ("float: " if as_float else "exact: ") + w) for w in replay_chain(case, as_float)]
